@@ -46,7 +46,9 @@ func Explore(pkg *ssa.Package, fn string, sizes types.Sizes, budget time.Duratio
 		vtimeReset()
 		jsonStore = nil
 		i := newInterp(pkg.Prog, sizes)
+		ti := time.Now()
 		call(i, nil, token.NoPos, pkg.Func("init"), nil)
+		e.InitWall += time.Since(ti)
 		call(i, nil, token.NoPos, f, nil)
 	})
 	return e
